@@ -1022,12 +1022,15 @@ class WCS(object):
                 dname, self.wcs, dinfo["aprefix"]
             )
 
-            if ca != 0:
+            b, cb, border = self.ExtractDistortCoeffs(
+                dname, self.wcs, dinfo["bprefix"]
+            )
+
+            # a model with coefficients on the second axis only is a
+            # distortion model too
+            if ca != 0 or cb != 0:
                 self.distort["name"] = dname
 
-                b, cb, border = self.ExtractDistortCoeffs(
-                    dname, self.wcs, dinfo["bprefix"]
-                )
                 ap, cap, aporder = self.ExtractDistortCoeffs(
                     dname, self.wcs, dinfo["apprefix"]
                 )
